@@ -61,6 +61,10 @@ CHECKS = {
              text="An exhaustive family of two-module diagrams plus seeded random diagrams (1..7 modules, 0..3 ports per side, all data types x integrity labels, sensible and adversarial wires incl. cycles / fan-in / unknown names, raw / labelled / mislabelled / missing / extra handler outputs, raw / typed / mistyped external inputs) are built and executed on the real code; TLC evaluates ConnectExact, DeliveredWellTyped, OutputsChecked, OncePerModule, AfterFeeders, UnschedulableRaises and CapsUnion on every record and compares the outcome with the specification's scheduling machine.",
              note="Trusted: TLC/SANY, logging handler stubs, origin-tagged payloads. Random diagrams are sampled with the seed (4k quick / 100k thorough); the property's own quantifier is over randomly generated diagrams.",
              ref="DESIGN.md section 4 C16"),
+ "C11": dict(technique="TLA+ spec (Chaperone.tla: strategy cascade machine, confidence table, C11 clauses) model-checked over all orders x outcome vectors; recorded folds of the real Chaperone judged by TLC (Trace_Chaperone.tla), which also runs the cascade machine on the per-strategy outcomes",
+             text="Generated schemas x seeded random instances x ~20 corruption operators and 8 hostile texts, folded plain and enhanced under the strategy orders; TLC evaluates ValidSound, InvalidClean, StrictVerbatim, Agree, ConfidenceRange, NoFabrication and NoRaise on every record and checks that the cascade returns the first strategy that is valid when tried alone. The cascade logic is covered exhaustively (all 64 orders in the thorough tier); texts are sampled.",
+             note="Trusted: TLC/SANY; pydantic/json in the harness compute the object-level booleans TLC consumes. Character-level behaviour of the extraction / repair regexes is reached only through the sampled corruptions (DESIGN.md section 10).",
+             ref="DESIGN.md section 4 C11"),
 }
 NOT_APPLICABLE = []
 
